@@ -32,6 +32,8 @@ CHECKS['C04'] = ('exploration','runtime monitoring: exhaustive code-point sweep 
 CHECKS['C13'] = ('exploration','runtime monitoring: round-trip oracle (encoder with free choice among rule-conformant spellings -> lexer -> same text) and a three-valued reference decoder over a bounded-exhaustive critical alphabet', 'Forward: random texts are written as literals in all five quote spellings with randomly chosen conformant escapes and must read back exactly (token level and through 输出). Reverse: all strings up to length 3/4 over 28 critical symbols are decoded by a reference decoder that declares a case unspecified when defensible readings of the rules differ.', 'Trusts: the reference decoder in c13.go (four readings of the catch-all backtick rule must agree for a case to be judged).', '§6 C13')
 CHECKS['C11'] = ('exploration','runtime monitoring: repetition monitor (same program executed N times in one process, outcomes compared) over a corpus aimed at every hash-map iteration site, with a canary that shows map-order randomisation was live', 'Each program is executed 40 (quick) / 300 (thorough) times in one process and every repetition must give the identical result, display trace and error text; the corpus has one family per range-over-map site of the interpreter (dictionary equality, JSON decode, import-all, input expressions, request headers) plus samples of the generated corpora.', 'Trusts: Go map iteration order is re-randomised per range statement (canary in evidence). Sites not reached by the corpus are not decided.', '§6 C11')
 CHECKS['C16'] = ('exploration','runtime monitoring: (a) sequential pollution monitor - probe outcomes after polluter sequences compared with outcomes in pristine processes; (b) Go race detector plus response/token matching while goroutines drive the real HTTP handlers concurrently', 'All single polluters x all probes and random polluter sequences are run in fresh processes with shared and separate Interpreter objects; concurrent executions are driven through the real handlers under the race detector with each request returning its own token.', 'Trusts: the Go race detector (reports only executed interleavings); the synthetic library registered through SetExternalLibs stands in for library types because stdlib/http does not compile on this platform.', '§6 C16')
+CHECKS['C15'] = (REF[0],'runtime monitoring: bounded-exhaustive enumeration of module dependency digraphs materialised as real .zn directories, outcome (marker trace, result, error code) compared with the module model of the reference evaluator; tick budget for hangs', REF[1], REF[2]+' Exhaustive over all digraphs on main+2 (quick) / main+3 (thorough) modules; larger graphs sampled.', '§6 C15')
+CHECKS['C18'] = (REF[0],'runtime monitoring: fault-planting generator with renderer-recorded physical lines; the rendered error text is parsed and compared with the reference call stack at the fault (runtime) and with the planted offset (syntax, incl. caret column)', REF[1], REF[2]+' Display widths: ASCII 1, CJK/full-width 2; other characters before the caret make the column unjudged.', '§6 C18')
 NOT_YET = {}
 
 def main():
